@@ -139,9 +139,14 @@ func VerifC01_methodsets() {
 	e2 := pick("e2", 3)
 	mutate(s2, g2, e2)
 	vfCheckCell(&c, item, want, "stale-")
+	// a by-value copy taken before the update is a cell of its own: updating one leaves the other alone
+	snap := c
 	c.Update()
 	want2 := vfExpectMask(m, s2, g2, e2, h, w)
 	vfCheckCell(&c, item, want2, "fresh-")
+	vfCheckCell(&snap, item, want, "copy-still-stale-")
+	snap.Update()
+	vfCheckCell(&snap, item, want2, "copy-fresh-")
 }
 
 // a struct stored by value whose text lives behind a pointer it shares with the caller
